@@ -38,7 +38,7 @@ def call_by_contract(eng, st, key, fn, args, kwargs, line):
     unit = eng.contracts[key]
     eng.trusted_calls.add(key)
     # bind actuals to formals in a fresh ghost frame
-    fid = eng.new_frame(st, parent=None, module=fn.module)
+    fid = eng.new_frame(st, parent=None, module=fn.module if fn.module is not None else eng.module(unit.module))
     eng.bind_params(st, fn, args, kwargs, fid)
     saved_genv = getattr(eng, "ghost_env", None)
     genv = {}
